@@ -81,9 +81,11 @@ def weak_calls(facts):
         if not calls:
             continue
         ands = [n for n in nodes if n.get("k") == "Binary" and n.get("op") in ("&&", "And")]
+        env_ = hir.let_env(body)          # `let needle_len = needle.chars().count(); needle_len <= env.len() && ..` reads like the direct form
         for c in calls:
             x, n = c["recv"], c["args"][0]
-            ok = any(_norm(a["r"]) is c and length_guard(a["l"], x, n) for a in ands)
+            ok = any(_norm(a["r"]) is c and (length_guard(a["l"], x, n) or length_guard(hir.through_lets(a["l"], env_), hir.through_lets(x, env_), hir.through_lets(n, env_)))
+                     for a in ands)
             out.append((path, it, c, ok))
     return out
 
